@@ -621,6 +621,7 @@ type OpenOpts struct {
 	RootProp         string
 	PlainIndex       bool // do not wrap the persister (no faults/monitor)
 	WriteImpliesRead bool
+	Overwrite        bool // drive manager created with overwrite=true
 }
 
 type Stack struct {
@@ -665,7 +666,7 @@ func (w *World) Open(o OpenOpts) (*Stack, error) {
 	if err != nil {
 		return nil, fmt.Errorf("keys: %w", err)
 	}
-	st.TM = tape.NewTapeManager(st.Drive, mtio.MagneticTapeIO{}, cfg.RecordSize, false)
+	st.TM = tape.NewTapeManager(st.Drive, mtio.MagneticTapeIO{}, cfg.RecordSize, o.Overwrite)
 	st.MP = persisters.NewMetadataPersister(st.Index)
 	if err := st.MP.Open(); err != nil {
 		return nil, fmt.Errorf("index open: %w", err)
